@@ -30,6 +30,15 @@ class Target:
     # -- the callable handed to the samplers
     def __call__(self, theta):
         th = np.array(theta, dtype=float, copy=True).reshape(-1)
+        c = _ctx.get()
+        if c is not None and c.eval_failures:
+            left = c.eval_failures.get(self.tag)
+            if left is not None:
+                if left <= 1:
+                    c.eval_failures[self.tag] = None
+                    c.stats["fault_posterior_raised_mid_operation"] += 1
+                    raise _ctx.InjectedFailure("the posterior raised at %r" % (th.tolist(),))
+                c.eval_failures[self.tag] = left - 1
         # like any real log-density, a non-finite argument gives a non-finite (NaN) value
         v = self.logpdf(th) if np.all(np.isfinite(th)) else float("nan")
         self._note("post", th, v)
